@@ -75,7 +75,7 @@ fn run_once(sched: &Arc<Sched>, sc: &Value, sc_ix: usize, run_ix: usize, out: &A
             };
             let mut line = json!({"k": "op", "t": w + 1, "o": lab, "op": ev.op});
             if lab == "map" {
-                let now = q_orders_json(&q);
+                let now = if ev.op == "get_mut" { prev.lock().unwrap().clone() } else { q_orders_json(&q) };
                 let key = *keys.get(&ev.arg).unwrap_or(&-1);
                 let find = |m: &Value| -> Value { m.as_array().and_then(|a| a.iter().find(|o| o["id"].as_i64() == Some(key)).cloned()).unwrap_or_else(no_order) };
                 let mut pm = prev.lock().unwrap();
@@ -90,7 +90,7 @@ fn run_once(sched: &Arc<Sched>, sc: &Value, sc_ix: usize, run_ix: usize, out: &A
                         line["r"] = if res == "true" { find(&pm) } else { no_order() };
                         line["m"] = now.clone();
                     }
-                    "get" => {
+                    "get" | "get_mut" => {
                         line["v"] = json!(key);
                         line["r"] = if res == "true" { find(&now) } else { no_order() };
                     }
